@@ -262,6 +262,36 @@ theorem C17_stack_decision_sound_extracted (desc : Bool) (cs : List SegCol)
 example : stackDecisionG false [⟨.full, [some 1, some 5], [true, true], (1, 5)⟩,
     ⟨.optional, [none, some 5, some 9], [false, true, true], (5, 9)⟩] = some true := by decide
 
+/-- EVERY SEGMENT OF A SORTED INDEX IS SORTED, for every history: whatever sequence of flushes,
+deletes and merges (k-way or stacked, of fresh or already merged segments) produced a segment,
+its sort keys in doc-id order are sorted in the configured direction — hence (by
+`C17_null_placement`) documents without value come first ascending and last descending. Induction
+over `ReachableKeys`; the stacking case rests on the extracted decision procedure. -/
+theorem C17_every_segment_sorted (desc : Bool) (ks : List SKey) (h : ReachableKeys desc ks) :
+    sortedKeys desc ks := by
+  induction h with
+  | fresh keys => exact (C17_sort_order_perm_sorted keys desc).2.1
+  | live ks alive _ ih => exact ih.sublist (liveDocs_sublist ks alive)
+  | kway runs _ ih => exact (C17_merge_kway_sorted desc runs ih).1
+  | stack cs _ hlen hcard hnm hstats hne hdec ih =>
+    exact C17_stack_decision_sound_extracted desc cs hlen hcard hnm hstats hne
+      (fun c hc => (ih c hc).sublist (liveDocs_sublist c.keys c.alive)) hdec
+
+/-- a merged segment (k-way) of a fresh segment with a deleted doc and another fresh segment -/
+example : ReachableKeys false ((kmerge false
+    [ (Merge.liveDocs ((sortOrder [some 5, none, some 3] false).filterMap ([some 5, none, some 3][·]?)) [true, false, true]).map (fun k => (k, 0, 0)),
+      ((sortOrder [some 4] false).filterMap ([some 4][·]?)).map (fun k => (k, 1, 0)) ]).map (·.1)) := by
+  apply ReachableKeys.kway
+  intro r hr
+  simp only [List.mem_cons, List.mem_nil_iff, or_false] at hr
+  rcases hr with rfl | rfl
+  · have e : ((fun x : SKey × Nat × Nat => x.1) ∘ fun k : SKey => (k, 0, 0)) = id := rfl
+    rw [List.map_map, e, List.map_id]
+    exact ReachableKeys.live _ _ (ReachableKeys.fresh _)
+  · have e : ((fun x : SKey × Nat × Nat => x.1) ∘ fun k : SKey => (k, 1, 0)) = id := rfl
+    rw [List.map_map, e, List.map_id]
+    exact ReachableKeys.fresh _
+
 /-- NULL PLACEMENT as a property of every sorted key sequence (hence of every fresh segment by
 `C17_sort_order_perm_sorted`, every k-way merged segment by `C17_merge_kway_sorted` and every
 stacked segment by `C17_stack_decision_sound`): ascending, a document without value is never
